@@ -602,6 +602,8 @@ pub enum Op {
     /// Insert `Replicated` again on an entity that already carries it.
     ReMark(u8),
     Ins(u8, u8),
+    /// `insert` of a component the entity already has (overwrites it; Bevy reports it as added).
+    ReIns(u8, u8),
     Rm(u8, u8),
     Mut(u8, u8),
     /// `set_visibility(client, slot, visible)`.
@@ -654,6 +656,7 @@ impl Op {
             Op::Mark(s) => format!("mark e{}", s + 1),
             Op::ReMark(s) => format!("re-insert Replicated on e{}", s + 1),
             Op::Ins(s, t) => format!("insert {} on e{}", ctag_name(t), s + 1),
+            Op::ReIns(s, t) => format!("re-insert {} on e{}", ctag_name(t), s + 1),
             Op::Rm(s, t) => format!("remove {} from e{}", ctag_name(t), s + 1),
             Op::Mut(s, t) => format!("mutate {} of e{}", ctag_name(t), s + 1),
             Op::Vis(c, s, v) => format!("vis(c{},e{},{})", c, s + 1, v),
@@ -922,7 +925,7 @@ impl Sim {
             Op::Mark(s) => self.alive(s).is_some() && !self.marked(s),
             Op::ReMark(s) => self.marked(s),
             Op::Ins(s, t) => self.alive(s).is_some_and(|e| !self.has_tag(e, t)),
-            Op::Rm(s, t) | Op::Mut(s, t) => self.alive(s).is_some_and(|e| self.has_tag(e, t)),
+            Op::Rm(s, t) | Op::Mut(s, t) | Op::ReIns(s, t) => self.alive(s).is_some_and(|e| self.has_tag(e, t)),
             Op::Vis(c, s, _) => {
                 self.cfg.vis != Vis::All
                     && self.alive(s).is_some()
@@ -1014,9 +1017,9 @@ impl Sim {
         self.actions.push(Action::Op(op));
         let v = self.next_ver();
         match op {
-            Op::Mut(s, t) | Op::Ins(s, t) => {
+            Op::Mut(s, t) | Op::Ins(s, t) | Op::ReIns(s, t) => {
                 self.last_edit.insert((s + 1, t), (v, None));
-                if t == TO && matches!(op, Op::Ins(..)) {
+                if t == TO && matches!(op, Op::Ins(..) | Op::ReIns(..)) {
                     if let Some(e) = self.alive(s) {
                         self.once_inserted.insert(e.to_bits());
                     }
@@ -1097,7 +1100,7 @@ impl Sim {
                 let e = self.alive(s).unwrap();
                 self.server.world_mut().entity_mut(e).insert(Replicated);
             }
-            Op::Ins(s, t) | Op::Mut(s, t) => {
+            Op::Ins(s, t) | Op::Mut(s, t) | Op::ReIns(s, t) => {
                 let e = self.alive(s).unwrap();
                 let etag = s + 1;
                 let is_mut = matches!(op, Op::Mut(..));
